@@ -1955,7 +1955,15 @@ pub fn configs(prop: SProp, tier: Tier) -> Vec<SCfg> {
                                 let reqs = (0..2).map(|i| ReqCfg::simple(i as u64, true)).collect();
                                 let mut c = base(reqs, limit, 1, fl, cap, alpha);
                                 c.fault = Some(Fault { op, k, sticky, eof: false });
-                                out.push(c);
+                                out.push(c.clone());
+                                // the same through execute(): the handler stream ends at the
+                                // first transport error and is not polled again (seeded change
+                                // C14o kept polling: a response finished later was written to
+                                // the transport that had reported the failure)
+                                if limit.is_none() && k <= 3 {
+                                    c.route = Route::Execute;
+                                    out.push(c);
+                                }
                             }
                         }
                     }
